@@ -201,6 +201,54 @@ def run(prop, tier, seed, repo, jobs):
                 inconclusive.append('%s: witness replay failed: %s' % (tag, e))
         elif not res['error']:
             inconclusive.append('%s: vacuity: no witness run found' % tag)
+    if prop == 'C06':
+        # the clause "no detected change is absorbed by a skip" is about incremental::run, decided over the symbolic file system
+        try:
+            from . import incr, incr_native
+            scs = incr.scenarios(tier)
+            idx = [i for i, sc_ in enumerate(scs) if sc_.name == 'single_file'][0]
+            res = incr.check_scenario(('C06', idx, tier, repo))
+            if res['error']:
+                inconclusive.append('absorbed change: %s' % res['error'])
+            else:
+                fns |= set(res['functions'])
+                for ob in res['obligations']:
+                    nq += 1
+                    if ob['verdict'] == 'unsat':
+                        nunsat += 1
+                        samples.append({'case': 'incremental::run over the symbolic file system', 'obligation': ob['name'], 'verdict': 'unsat', 'paths': ob['checked_paths']})
+                        continue
+                    if ob['verdict'] != 'sat':
+                        inconclusive.append('%s: solver %s' % (ob['name'], ob['verdict']))
+                        continue
+                    sc_ = scs[idx]
+                    # native: the input is rewritten while the (virtual) script runs, then the tree is left alone
+                    import tempfile, shutil
+                    from ..native import build_native, run_native
+                    binpath, _ = build_native(repo)
+                    d = tempfile.mkdtemp(prefix='zx-f6-', dir=os.environ.get('VERIF_SCRATCH', '/var/tmp'))
+                    try:
+                        open(d + '/zinoma.yml', 'w').write('targets:\n  t:\n    input:\n      - paths: [in.txt]\n    build: echo t\n')
+                        open(d + '/in.txt', 'w').write('v1')
+                        sched = ['poll 0 t0.1 all', 'poll 2 t0.4 1', 'poll 0 t0.1 all', 'poll 2 t0.4 1', 'poll 0 t0.1 all', 'poll 2 -', 'poll 0 t0.1 all',
+                                 'write %s/in.txt v2-edited-during-the-build' % d, 'exitscript 0 echo t', 'poll 2 -', 'drain']
+                        r1 = run_native(binpath, d, ['t'], sched, timeout=30)
+                        r2 = run_native(binpath, d, ['t'], None, timeout=30)
+                        absorbed = r1['rc'] == 0 and not any(l.startswith('proc_spawn') for l in r2['log'])
+                    finally:
+                        shutil.rmtree(d, ignore_errors=True)
+                    replay_n += 1
+                    rpath = os.path.join(common.REPLAYS, 'C06-absorbed-%d.json' % replay_n)
+                    os.makedirs(common.REPLAYS, exist_ok=True)
+                    json.dump({'kind': 'incr', 'obligation': ob, 'native': {'run1_rc': r1['rc'], 'run2_spawned': not absorbed, 'run2_stderr': r2['stderr'][-200:]}, 'confirmed': absorbed}, open(rpath, 'w'), indent=1, default=str)
+                    if 'absorbed_change' in known_roles:
+                        known_lines.append('KNOWN-FINDING: property=%s %s [%s; replay %s; reproduced natively: %s]' % (prop, known_roles['absorbed_change']['what'], ob['name'], rpath, absorbed))
+                    elif absorbed:
+                        violations.append(rpath)
+                    else:
+                        inconclusive.append('%s: not reproduced natively (replay %s)' % (ob['name'], rpath))
+        except Exception as e:
+            inconclusive.append('absorbed change: %s' % e)
     # exit path of main(): terminate() after engine::run on every path (source-derived, see maintail.py)
     if prop in ('C07', 'C10', 'C11'):
         try:
